@@ -3,6 +3,7 @@
 # Builds the driver if needed (std-only Go, offline) and runs one property check against /repo's current tree.
 cd "$(dirname "$0")" || exit 2
 export GOFLAGS=-mod=mod GOPROXY=off GOSUMDB=off GOTOOLCHAIN=local
+export VERIF_DIR="$(pwd)"
 if [ ! -x bin/verif ] || [ -n "$(find cmd engine go.mod -newer bin/verif -print -quit 2>/dev/null)" ]; then
   go build -o bin/verif ./cmd/verif || { echo "INFRA: cannot build driver"; exit 2; }
 fi
